@@ -300,6 +300,34 @@ func runC14(r *mc.Run) {
 			}
 		}
 	}
+	// pairs of byte fields: one of a wrong length that is a "round" part of its size (a third, a half, two thirds,
+	// 16, 32, size-16), the other correct or of the complementary wrong length — lengths that fold to the right size
+	// when summed / OR-ed / XOR-ed over a group of fields
+	for _, f := range polFields {
+		seen := map[int]bool{}
+		for _, l := range []int{f.len / 3, f.len / 2, 2 * f.len / 3, 16, 32, f.len - 16, f.len / 4, 3 * f.len / 4} {
+			if l <= 0 || l >= f.len || seen[l] {
+				continue
+			}
+			seen[l] = true
+			for _, g := range polFields {
+				if g.name == f.name {
+					continue
+				}
+				fv := val(f)[:l]
+				p1 := &ccpb.Policy{}
+				f.set(p1, append([]byte(nil), fv...))
+				g.set(p1, val(g))
+				add(fmt.Sprintf("lenpair/%s=%d,%s=ok", f.name, l, g.name), p1)
+				if g.len == f.len {
+					p2 := &ccpb.Policy{}
+					f.set(p2, append([]byte(nil), fv...))
+					g.set(p2, val(g)[:g.len-l])
+					add(fmt.Sprintf("lenpair/%s=%d,%s=%d", f.name, l, g.name, g.len-l), p2)
+				}
+			}
+		}
+	}
 	// RTMR lists 0..5 over {empty, full, short, different}
 	rk := []string{"em", "fu", "sh", "df"}
 	for n := 0; n <= 5; n++ {
